@@ -40,6 +40,21 @@ def _wide(i: int) -> int:
     return WIDE[i % len(WIDE)]
 
 
+PRIOR = os.environ.get("VERIF_PRIOR", "")     # "h,w": a problem of that size is serialised and decoded first (history)
+
+
+def _prior_roundtrip():
+    if not PRIOR:
+        return
+    ph, pw = [int(t) for t in PRIOR.split(",")]
+    m = _mod(CODEC)
+    fill = {"nurikabe": 0, "sudoku": 0, "nurimisaki": -1, "slitherlink": -1, "masyu": 0}[CODEC]
+    prob = [[fill] * pw for _ in range(ph)]
+    prob[0][0] = 1
+    url = getattr(m, "serialize_" + CODEC)(prob)
+    getattr(m, "deserialize_" + CODEC)(url)
+
+
 def h_grid_codec(c0: int, c1: int, c2: int, c3: int, c4: int, c5: int, w0: int) -> bool:
     """
     nurikabe / sudoku / nurimisaki / slitherlink / masyu on an H x W board (H*W <= 6): cells symbolic over the module's
@@ -51,6 +66,7 @@ def h_grid_codec(c0: int, c1: int, c2: int, c3: int, c4: int, c5: int, w0: int) 
     if CODEC in ("nurikabe", "sudoku", "nurimisaki") and w0 >= 0:
         cells[-1] = _wide(w0)
     problem = _grid(cells)
+    _prior_roundtrip()
     m = _mod(CODEC)
     ser = getattr(m, "serialize_" + CODEC)
     de = getattr(m, "deserialize_" + CODEC)
